@@ -564,6 +564,18 @@ func main() {
 			a    acctSpec
 		}{kind, acctSpec{variant, sc, pw, lb}})
 	}
+	// first (so that a capped run has them): empty password, legacy protection format, creation in a low-security wallet
+	add("default", "create", sch[1], nil)
+	add("lowsec", "import-ext", sch[1], nil)
+	add("lowsec", "import-ext", sch[len(sch)-1], nil)
+	for _, sc := range []scheme{sch[1], sch[len(sch)-2], sch[len(sch)-1]} {
+		add("lowsec", "legacy-ctr", sc, passwords[1])
+	}
+	if r.Thorough() {
+		for pi := 0; pi < 3; pi++ {
+			add("lowsec", "create", sch[1], passwords[pi])
+		}
+	}
 	if r.Thorough() {
 		// ordered so that a deadline-capped run is still broad: every wallet mixes the three paths (rotating which
 		// one gets the ChangePassword / UnLock sequence) and the two wallet kinds alternate in the work list.
@@ -600,13 +612,6 @@ func main() {
 		for pi := 0; pi < 3; pi++ {
 			add("lowsec", "create", sch[1], passwords[pi])
 		}
-	}
-	// empty password and legacy protection format
-	add("default", "create", sch[1], nil)
-	add("lowsec", "import-ext", sch[1], nil)
-	add("lowsec", "import-ext", sch[len(sch)-1], nil)
-	for _, sc := range []scheme{sch[1], sch[len(sch)-2], sch[len(sch)-1]} {
-		add("lowsec", "legacy-ctr", sc, passwords[1])
 	}
 	// wallets of three accounts of one kind; the two kinds alternate in the work list
 	perKind := map[string][]walletSpec{}
